@@ -469,3 +469,88 @@ def builder(pid):
         res.floor("OpenOptions builder steps", n, ctx.table("floors").get("builder_fns", 0))
         return res
     return run
+
+
+def normapplied(pid):
+    """R-NORMALL: DirEntry::read_from documents, per object type, fields whose stored value is ignored under permissive
+    validation (a CLSID or a time on a stream, a start sector or a size on a storage, the root's name) and replaces
+    them by the canonical value.  Each of those replacements is independent of the others: for every such field, no
+    path through the branch of that object type reaches the Ok return with the field neither found canonical nor
+    replaced.  (Chaining two fix-ups with `else if` normalises only the first deviation that is present; a file
+    with two of them keeps the second, and the permissive view is no longer that of the undamaged file.)"""
+    from rules_sink import _edge_label
+
+    def run(ctx):
+        res = RuleResult("R-NORMALL(%s)" % pid, "for every type-dependent tolerated deviation of DirEntry::read_from, every path of that object type to the Ok return passes the test that found the field canonical or the assignment that makes it so")
+        tbl = ctx.table("mode")
+        f = ctx.fx.fns.get("internal::direntry::DirEntry::read_from")
+        if f is None:
+            res.gone.append("DirEntry::read_from")
+            return res
+        v = view(ctx, f)
+        pg = v.pg
+        pr = Prov(f)
+        g = guards(ctx, f)
+        names = {nm: l for l, nm in f.debug_names().items()}
+        oks = []
+        for bb, blk in enumerate(f.blocks):
+            if blk["cleanup"]:
+                continue
+            for i, st in enumerate(blk["stmts"]):
+                if st["s"] == "assign" and st["place"]["local"] == 0 and not st["place"]["proj"] and st["rv"]["r"] == "aggregate" and st["rv"].get("variant") == "Ok":
+                    oks.append(("s", bb, i))
+        edges = []
+        for b, blk in enumerate(f.blocks):
+            if blk["cleanup"] or blk["term"]["t"] != "switch":
+                continue
+            for k, tgt in enumerate(f.succ(b)):
+                val, vals = _edge_label(f, b, k)
+                edges.append((b, tgt, g.describe_all(b, val, vals)))
+        n = 0
+        done = set()
+        for row in tbl.get("deviations", []):
+            if row["function"] != f.path or len(row["test"]) != 2:
+                continue
+            mt = re.search(r"is ObjType::(\w+)\$?$", row["test"][1])
+            if not mt:
+                continue
+            otype = mt.group(1)
+            # the variables this kind of deviation is about: read off the located test atoms
+            for (b, tgt, atoms) in edges:
+                for a in atoms:
+                    if not (re.search(row["test"][0], a) or re.search(row["test"][0], wild(a))):
+                        continue
+                    mv = re.search(r"var:(\w+)", a)
+                    if not mv or mv.group(1) not in names or mv.group(1) in ("obj_type", "validation"):
+                        continue
+                    var = mv.group(1)
+                    if (var, otype) in done:
+                        continue
+                    # only a test made for this object type
+                    here = g.atoms_at(pg.edge_node(b, tgt)[0]) if pg.edge_node(b, tgt) else atoms
+                    if not any(re.search(r" is ObjType::%s$" % otype, x) for x in here):
+                        continue
+                    done.add((var, otype))
+                    n += 1
+                    neg = ("(Eq(" + a[4:]) if a.startswith("(Ne(") else (a[1:] if a.startswith("!") else None)
+                    barrier = set()
+                    for (b2, t2, at2) in edges:
+                        if neg and neg in at2:
+                            barrier.update(pg.edge_node(b2, t2))
+                        # another object type: not this deviation's business
+                        if any(re.search(r" is not ObjType::%s$" % otype, x) or (re.search(r" is ObjType::(\w+)$", x) and not x.endswith("::" + otype)) for x in at2):
+                            barrier.update(pg.edge_node(b2, t2))
+                    for l in [l_ for l_, nm_ in f.debug_names().items() if nm_ == var]:
+                        for d in pr.defs.get(l, []):
+                            dp = pr._def(d, 1, (l,))
+                            if re.match(r"^(const:[^()]*|[\w:<> ]+\((const:[^()]*)?\))$", dp) and "read" not in dp:
+                                barrier.add(("t", d[0]) if d[1] == "t" else ("s", d[0], d[1]))
+                    reach = pg.reach([pg.entry()], barrier)
+                    key = "R-NORMALL/%s/%s-of-%s" % (f.path, var, otype)
+                    if any(o in reach for o in oks):
+                        res.fail(Finding(res.rule, key + "/deviation-survives-permissive-open", "a %s entry can reach the Ok return of read_from with `%s` neither found canonical nor replaced (deviation '%s'): when another fix-up on the same entry fires first, this one is skipped, and the permissive view differs from the undamaged file" % (otype.lower(), var, row["id"]), f))
+                    else:
+                        res.ok({"deviation": row["id"], "variable": var, "object_type": otype, "every_path": "tested canonical or replaced"}, nontrivial=True)
+        res.floor("type-dependent normalisations", n, ctx.table("floors").get("normall_sites", 0))
+        return res
+    return run
